@@ -43,7 +43,7 @@ Base == [sub |-> "bind", alg |-> "aes128-gcm", kt |-> "oaep", dig |-> "none", de
          rootsigned |-> FALSE, alg2 |-> "none", kt2 |-> "none", dig2 |-> "none", detached2 |-> FALSE]
 
 Bind  == { [Base EXCEPT !.sub = "bind", !.alg = a, !.recipient = r, !.validate = v, !.certform = c, !.rootsigned = rs, !.detached = d] :
-             a \in BindAlgs, r \in {"absent", "match", "mismatch"}, v \in BOOLEAN, c \in {"valid", "empty", "garbage"},
+             a \in BindAlgs, r \in {"absent", "match", "mismatch", "samekey"}, v \in BOOLEAN, c \in {"valid", "empty", "garbage"},
              rs \in BOOLEAN, d \in BOOLEAN } \cup
          { [Base EXCEPT !.sub = "bind", !.alg = a, !.keycfg = "rotating", !.validate = v, !.rootsigned = rs] : a \in BindAlgs, v \in BOOLEAN, rs \in BOOLEAN } \cup
          { [Base EXCEPT !.sub = "bind", !.alg = a, !.shape = "staleKey", !.recipient = r] : a \in BindAlgs, r \in {"absent", "match"} }
@@ -73,7 +73,9 @@ InWindow(now) == 4 <= now /\ now <= 12
 CertRefused(cfg, in) == in.validate /\ (in.certform # "valid" \/ ~InWindow(cfg.now) \/ in.keycfg = "rotating")
 \* DecryptSymmetricKey recipient comparison (types/encrypted_key.go:109-121): the shown
 \* certificate must equal the SP's configured certificate octets
-RecipientRefused(in) == in.recipient = "mismatch" \/ (in.recipient = "match" /\ in.certform # "valid") \/ in.shape = "staleKey"
+\* "samekey": the certificate shown is a DIFFERENT certificate issued over the SP's own public key (a re-issue,
+\* an expired predecessor): not the SP's configured certificate, hence refused like any other
+RecipientRefused(in) == in.recipient \in {"mismatch", "samekey"} \/ (in.recipient = "match" /\ in.certform # "valid") \/ in.shape = "staleKey"
 
 DecryptOK(cfg, in) ==
    CASE in.sub = "bind"  -> ~CertRefused(cfg, in) /\ ~RecipientRefused(in)
@@ -94,7 +96,7 @@ ModelOut(cfg, in) ==
 \*     twin (validation of the encrypted Response agrees with its plaintext twin in outcome and data)]
 C07_OK(cfg, in, o) ==
    (in.sub = "bind") =>
-      /\ (in.recipient = "mismatch" \/ in.shape = "staleKey") => o.res = "reject"
+      /\ (in.recipient \in {"mismatch", "samekey"} \/ in.shape = "staleKey") => o.res = "reject"
       /\ (in.validate /\ (in.certform # "valid" \/ ~InWindow(cfg.now) \/ in.keycfg = "rotating")) => o.res = "reject"
 
 C09_OK(cfg, in, o) == o.res \in {"accept", "reject", "na"} /\ o.dec \in {"ok", "wrong", "error", "na"}
